@@ -186,6 +186,13 @@ pub fn run(args: &Args) -> Report {
                             rep.tie(req, ans);
                         }
                     }
+                    // built-in definition (alone, or in front of the file's): the model gets it as an argument
+                    if supply != 0 && d % 3 == 1 {
+                        if let (Some(b), Some((req, ans))) = (&builtin, builtin.as_ref().and_then(|b| tie_case_special_builtin(&text, b, false))) {
+                            let _ = b;
+                            rep.tie(req, ans);
+                        }
+                    }
                 }
             }
         }
@@ -218,6 +225,11 @@ pub fn run(args: &Args) -> Report {
                 let input = format!("{} {}", hex(t_both.as_bytes()), hex(case.a2ml.as_bytes()));
                 rep.case(&input, true);
                 rep.bump("supply:both-different");
+                if d % 2 == 0 {
+                    if let Some((req, ans)) = tie_case_special_builtin(&t_both, &case.a2ml, false) {
+                        rep.tie(req, ans);
+                    }
+                }
                 match (load_spec(&t_builtin, Some(case.a2ml.clone()), false), load_spec(&t_both, Some(case.a2ml.clone()), false)) {
                     (Loaded::Ok(f1, _), Loaded::Ok(f2, _)) => {
                         let (w1, w2) = (ifdata_part(&f1.write_to_string()), ifdata_part(&f2.write_to_string()));
